@@ -270,7 +270,7 @@ RULES = [
 ]
 
 MUTANTS = [
-    Mutant("recycled-failed-stays-failed", "step.py", in_function("Step.after_recycle", replace_once("if state == StepState.FAILED or (state == StepState.SUCCEEDED and self.get_hash() is None):", "if state == StepState.SUCCEEDED and self.get_hash() is None:")), ("R-C05-3",)),
+    Mutant("recycled-failed-stays-failed", "step.py", in_function("Step.after_recycle", replace_once("if state == StepState.FAILED or (\n            state == StepState.SUCCEEDED", "if (\n            state == StepState.SUCCEEDED")), ("R-C05-3",)),
     Mutant("delete-detached-only-after-runs", "builder.py", in_function("Builder.finalize", replace_once("            async with self.db:\n                self.workflow.delete_detached()\n", "            if self.scheduler.run_counter > 0:\n                async with self.db:\n                    self.workflow.delete_detached()\n")), ("R-C05-7",)),
     Mutant("sql-outside-region", "director.py", in_function("DirectorHandler.hold_dispatch", lambda s: s.replace("        async with self.db:\n            step = self.scheduler.get_job_step(job_i)\n            step.hold()\n", "        step = self.scheduler.get_job_step(job_i)\n        step.hold()\n") if "step.hold()" in s else None), ("R-C05-1",)),
     Mutant("nested-region", "executor.py", in_function("Executor._finalize_failed_run", replace_once("            run.step.mark_completed(None, False)\n", "            run.step.mark_completed(None, False)\n            await self._flush_step_counts()\n")), ("R-C05-1",)),
